@@ -589,7 +589,14 @@ func genValue(rng *rand.Rand, t *Type, o ValOpts) interface{} {
 	case Float:
 		switch rng.Intn(6) {
 		case 0:
-			return math.Float32frombits(rng.Uint32()) // includes NaN payloads, infinities, denormals
+			// includes NaN payloads, infinities, denormals. NaNs are made quiet: a
+			// float32 -> float64 -> float32 conversion (which reflect's Float()
+			// performs) quiets signalling NaNs in hardware; not demanded.
+			f := math.Float32frombits(rng.Uint32())
+			if f != f {
+				f = math.Float32frombits(math.Float32bits(f) | 0x00400000)
+			}
+			return f
 		case 1:
 			return float32(0)
 		case 2:
@@ -600,7 +607,11 @@ func genValue(rng *rand.Rand, t *Type, o ValOpts) interface{} {
 	case Double:
 		switch rng.Intn(6) {
 		case 0:
-			return math.Float64frombits(rng.Uint64())
+			f := math.Float64frombits(rng.Uint64())
+			if f != f {
+				f = math.Float64frombits(math.Float64bits(f) | 1<<51)
+			}
+			return f
 		case 1:
 			return math.Copysign(0, -1)
 		case 2:
